@@ -461,7 +461,7 @@ Proof. intros [|x l] H; [congruence|left; reflexivity]. Qed.
 Lemma ext_line_offered : forall fuel s x,
     In x (ext_line fuel s) -> In x (map ext_name (split_on 44 s)).
 Proof.
-  induction fuel as [|f IH]; intros s x H; simpl in H; [destruct H|].
+  induction fuel as [|f IH]; intros s x H; cbn [ext_line] in H; [destruct H|].
   destruct (next_token (skip_space s)) as [t s1] eqn:E.
   destruct t as [|t0 t']; [destruct H|].
   destruct (ext_params (S (length s1)) s1) as [s'|] eqn:Ep; [|destruct H].
